@@ -63,7 +63,7 @@ class Ctx:
             self.seed = 1
         alt = os.environ.get("VERIF_REPO")
         suffix = ("-alt-" + hashlib.sha1(os.path.abspath(alt).encode()).hexdigest()[:6]) if alt and os.path.abspath(alt) != REPO else ""
-        self.work = os.path.join(VERIF, "work", pid + suffix)
+        self.work = os.path.join(VERIF, "work", "%s%s-%d" % (pid, suffix, os.getpid()))
         shutil.rmtree(self.work, ignore_errors=True)
         os.makedirs(self.work, exist_ok=True)
         self.violations = []       # list of dicts
